@@ -4,6 +4,7 @@
 #include <symengine/basic.h>
 #include <symengine/symbol.h>
 #include <symengine/add.h>
+#include <symengine/rational.h>
 #include <sys/wait.h>
 #include <unistd.h>
 using namespace SymEngine;
@@ -25,6 +26,17 @@ int main(int argc, char **argv)
             std::string d = e->dumps();
             if (has(a, "byte")) { unsigned char b = (unsigned char)int_of(a, "byte"); for (size_t pos = 0; pos < d.size() && pos < 64; pos++) { std::string m = d; m[pos] = (char)b; bad |= try_load(m); } }
             if (has(a, "s")) { std::string s = a["s"]; size_t p = d.find("5"); if (p != std::string::npos) { std::string m = d; m.replace(p, 1, s); if (p > 0) m[p - 8 < m.size() ? p - 8 : 0] = (char)s.size(); bad |= try_load(m); } }
+        }
+        if (std::string(argv[1]).find("load_basic.Rational") != std::string::npos || std::string(argv[1]).find("gmp_pre") != std::string::npos || std::string(argv[1]).find("Rational.ctor") != std::string::npos) {
+            // a dump of 1/2 whose denominator digit is overwritten with 0, and 0/0
+            for (int zero_num = 0; zero_num < 2; zero_num++) {
+                std::string d = Rational::from_two_ints(1, 2)->dumps();
+                size_t p2 = d.rfind('2'), p1 = d.rfind('1');
+                if (p2 != std::string::npos) d[p2] = '0';
+                if (zero_num && p1 != std::string::npos) d[p1] = '0';
+                std::cout << "loads(dump of 1/2 with denominator 0" << (zero_num ? " and numerator 0" : "") << ")\n" << std::flush;
+                bad |= try_load(d);
+            }
         }
         std::cout << std::flush; _exit(bad);
     }
